@@ -1091,6 +1091,148 @@ VF_PART(setters)
   });
 }
 
+
+// =================================================================================================================
+// Part extreme: zonal anisotropy (one or two huge ranges: ratio 1e3 .. 1e15, long axis not aligned with the coordinate axes),
+// tiny ranges with tiny lags, huge coordinates.  Reference = closed form in long double, with the anisotropic distance computed
+// by the harness in the rotated frame (each rotated component divided by ITS OWN range: the huge one contributes ~0), from the
+// coordinate differences the library itself forms.  Tolerance: 1e-9 x sill on the covariance VALUE (an error of the distance
+// along the huge axis is immaterial).  Lags are bounded (<= 1e3 x the short range) so that the double-precision rounding of
+// the rotated short component (1e-16 |h| / r_short) stays far below the tolerance.
+static long double refRhoL(const std::string& k, long double t, double p)
+{
+  if (k == "SPHERICAL") return t < 1 ? 1 - 1.5L * t + 0.5L * t * t * t : 0.L;
+  if (k == "CUBIC") return t < 1 ? 1 - 7 * t * t + 8.75L * t * t * t - 3.5L * powl(t, 5) + 0.75L * powl(t, 7) : 0.L;
+  if (k == "EXPONENTIAL") return expl(-t);
+  if (k == "GAUSSIAN") return expl(-t * t);
+  if (k == "MATERN" && p == 1.5) return (1 + t) * expl(-t);
+  return std::nanl("");
+}
+static const char* XKEYS[5] = {"SPHERICAL", "CUBIC", "EXPONENTIAL", "GAUSSIAN", "MATERN"};
+static const double XRATIO[5] = {1e3, 1e6, 1e9, 1e12, 1e15};
+static const char* XRATION[5] = {"1e3", "1e6", "1e9", "1e12", "1e15"};
+static const double XROT2[5] = {0., 30., 62., 115., 155.};
+static const double XROT3[5][3] = {{0, 0, 0}, {30, 0, 0}, {62, 25, -40}, {115, -60, 75}, {155, 10, 200}};
+static const int XPAT3[6][3] = {{1, 0, 0}, {0, 1, 0}, {0, 0, 1}, {1, 1, 0}, {1, 0, 1}, {0, 1, 1}};   // which axes carry the huge range
+VF_PART(extreme)
+{
+  Space sp;
+  sp.axis("type", 5).axis("ndim", 2).axis("ratio", 5).axis("pattern", 6).axis("rot", 5).axis("origin", 2).axis("unit", 2);
+  for_each_case(C, sp, [&](uint64_t id, const std::vector<int>& idx) {
+    const Info& I = infoOf(XKEYS[idx[0]]);
+    const std::string K = I.key;
+    int nd = idx[1] + 2;
+    if (nd == 2 && idx[3] >= 2) return;
+    const double ratio = XRATIO[idx[2]], unit = idx[6] ? 1e-6 : 1.;   // unit = the short range (1, or tiny: 1e-6 with tiny lags)
+    const double param = K == "MATERN" ? 1.5 : 1., sill = 2.;
+    const std::string rtag = std::string("ratio=") + XRATION[idx[2]];
+    Geo g; g.nd = nd;
+    std::vector<int> huge(nd);
+    for (int i = 0; i < nd; i++) { huge[i] = nd == 2 ? (i == idx[3]) : XPAT3[idx[3]][i]; g.ranges.push_back(unit * (huge[i] ? ratio : (i == 1 ? 0.75 : 1.))); }
+    if (nd == 2) g.angles = {XROT2[idx[4]], 0.}; else g.angles = {XROT3[idx[4]][0], XROT3[idx[4]][1], XROT3[idx[4]][2]};
+    g.R = refRot(nd, g.angles);
+    double scadef = declaredScadef(I, nd, param);
+    std::unique_ptr<Model> model(buildModel(I, g, param, sill, VectorDouble(), true, scadef));
+    if (!model) { C.violation("extreme:refused:" + rtag, "model refused; " + caseText(I, g, param, ""), std::to_string(id)); return; }
+    const std::string txt = caseText(I, g, param, "") + (idx[5] ? " origin 1e6" : " origin 0");
+    // long double reference from the coordinate difference h (as formed in double by the library: p2 - p1)
+    auto refCov = [&](const std::vector<double>& h) -> long double {
+      long double t2 = 0;
+      for (int i = 0; i < nd; i++)
+      {
+        long double u = 0;
+        for (int k = 0; k < nd; k++) u += (long double)g.R(k, i) * (long double)h[k];
+        u /= (long double)g.ranges[i];
+        t2 += u * u;
+      }
+      return (long double)sill * refRhoL(K, sqrtl(t2) * (long double)scadef, param);
+    };
+    SpaceRN space(nd);
+    static const double ORG[3] = {1e6, -1e6, 5e5};
+    VectorDouble o(nd, 0.);
+    if (idx[5]) for (int i = 0; i < nd; i++) o[i] = ORG[i] * (idx[6] ? 1e-6 : 1.);   // tiny unit: offsets of 1 (1e6 x the short range)
+    SpacePoint p1(o, -1, &space);
+    const double tol = 1e-9 * sill;
+    // lags in the rotated frame: (coefficient on the short axes, coefficient on the huge axes), in units of the short range
+    static const double LG[9][2] = {{0.1, 0}, {0.45, 0}, {0.9, 0}, {1.3, 0}, {0, 500}, {0.45, 300}, {0.2, -1000}, {-0.7, 40}, {0.03, 7}};
+    double c0 = model->eval0(0, 0), cxx = model->eval(p1, p1, 0, 0);
+    C.eval(2);
+    bool bad = false;
+    if (!(std::fabs(c0 - sill) <= 1e-12 * sill) || !(std::fabs(cxx - sill) <= 1e-12 * sill))
+    { C.violation("extreme:self:" + rtag, "C(x,x)=" + fmt(cxx) + " eval0=" + fmt(c0) + " but the sill is " + fmt(sill) + "; " + txt, std::to_string(id)); bad = true; }
+    int nshort = 0;
+    for (int l = 0; l < 9 && !bad; l++)
+      for (int v = 0; v < (nd == 3 ? 2 : 1) && !bad; v++)
+      {
+        // rotated-frame vector: short axes get LG[l][0] (variant: second short axis gets half of it), huge axes LG[l][1]
+        std::vector<double> u(nd); int ks = 0;
+        for (int i = 0; i < nd; i++) { if (huge[i]) u[i] = LG[l][1] * unit; else { u[i] = LG[l][0] * unit * (ks == 1 && v ? -0.5 : 1.) * (i == 1 ? 0.75 : 1.); ks++; } }
+        VectorDouble q(nd); std::vector<double> h(nd), hm(nd);
+        VectorDouble qm(nd);
+        for (int i = 0; i < nd; i++) { double s = 0; for (int k = 0; k < nd; k++) s += g.R(i, k) * u[k]; q[i] = o[i] + s; qm[i] = o[i] - s; h[i] = q[i] - o[i]; hm[i] = qm[i] - o[i]; }
+        SpacePoint p2(q, -1, &space), p3(qm, -1, &space);
+        double c = model->eval(p1, p2, 0, 0), cr = model->eval(p2, p1, 0, 0), cm = model->eval(p1, p3, 0, 0);
+        long double ref = refCov(h), refm = refCov(hm);
+        C.eval(3);
+        if (ref > 1e-6 * sill && ref < (1 - 1e-6) * sill) nshort++;
+        if (!std::isfinite(c) || !std::isfinite(cm))
+        { C.violation("extreme:nan:" + rtag, "C(h)=" + fmt(c) + " is not finite for h=" + vstr(h) + " (rotated frame " + vstr(u) + "); " + txt, std::to_string(id)); bad = true; break; }
+        if (!(std::fabs((long double)c - ref) <= tol) || !(std::fabs((long double)cm - refm) <= tol))
+        { C.violation("extreme:eval:" + rtag, "C(h)=" + fmt(c) + " but the closed form (long double, distance in the rotated frame) gives " + fmt((double)ref) + " for h=" + vstr(h) + " = R." + vstr(u) + "; " + txt, std::to_string(id)); bad = true; break; }
+        if (c != cr) { C.violation("extreme:even:" + rtag, "C(p1,p2)=" + fmt(c) + " != C(p2,p1)=" + fmt(cr) + " for h=" + vstr(h) + "; " + txt, std::to_string(id)); bad = true; break; }
+        if (std::fabs(c) > c0 * (1 + 1e-12)) { C.violation("extreme:bound:" + rtag, "|C(h)|=" + fmt(c) + " > C(0)=" + fmt(c0) + "; " + txt, std::to_string(id)); bad = true; break; }
+      }
+    // small lattice in the rotated frame: plain matrix = closed form, PSD, Optim path = plain path
+    if (!bad)
+    {
+      Pts P;
+      int tot = 1; for (int i = 0; i < nd; i++) tot *= 3;
+      for (int r = 0; r < tot; r++)
+      {
+        std::vector<double> u(nd), x(nd); int w = r;
+        for (int i = 0; i < nd; i++) { int k = w % 3; w /= 3; u[i] = huge[i] ? 250. * k * unit : 0.4 * k * unit; }
+        for (int i = 0; i < nd; i++) { double s2 = 0; for (int k = 0; k < nd; k++) s2 += g.R(i, k) * u[k]; x[i] = o[i] + s2; }
+        P.push_back(x);
+      }
+      std::unique_ptr<Db> db(ptsToDb(P, nd));
+      int n = (int)P.size();
+      Mat M = toEigen(model->evalCovMatrixSymmetric(db.get())), Mr = toEigen(model->evalCovMatrix(db.get(), db.get()));
+      C.eval(2);
+      double worst = 0, worstR = 0; bool finite = true;
+      for (int i = 0; i < n; i++) for (int j = 0; j < n; j++)
+      {
+        std::vector<double> h(nd); for (int k = 0; k < nd; k++) h[k] = P[j][k] - P[i][k];
+        double ref = (double)refCov(h);
+        if (!std::isfinite(M(i, j)) || !std::isfinite(Mr(i, j))) finite = false;
+        worst = std::max(worst, std::fabs(M(i, j) - ref)); worstR = std::max(worstR, std::fabs(Mr(i, j) - ref));
+      }
+      if (!finite) C.violation("extreme:nan:" + rtag, "covariance matrix of a 3^d lattice (rotated frame) has non-finite entries; " + txt, std::to_string(id));
+      else if (worst > tol || worstR > tol) C.violation("extreme:matrix:" + rtag, "covariance matrix differs from the closed form by " + fmt(std::max(worst, worstR)) + "; " + txt, std::to_string(id));
+      else
+      {
+        Eigen::SelfAdjointEigenSolver<Mat> es(0.5 * (M + M.transpose()), Eigen::EigenvaluesOnly);
+        if (es.eigenvalues().minCoeff() < -1e-10 * M.trace()) C.violation("extreme:psd:" + rtag, "matrix not PSD: min eigenvalue " + fmt(es.eigenvalues().minCoeff()) + "; " + txt, std::to_string(id));
+        Mat Mo = toEigen(model->evalCovMatrixOptim(db.get(), db.get()));
+        C.eval();
+        double d = Mo.rows() == n ? (Mo - Mr).cwiseAbs().maxCoeff() : 1e300;
+        bool fin = Mo.rows() == n && Mo.allFinite();
+        // the Optim path divides the COORDINATES by the ranges before differencing them: its round-off is proportional to
+        // |x| / r_short (conditioning of that formulation), which matters with the 1e6 origin (measured 3e-9 on the unchanged tree)
+        double xmax = 0, rmin = 1e300;
+        for (auto& pt : P) for (double v : pt) xmax = std::max(xmax, std::fabs(v));
+        for (double r : g.ranges) rmin = std::min(rmin, r);
+        double tolO = tol + sill * scadef * 16. * nd * 2.2e-16 * xmax / rmin;
+        C.outcome(!fin ? "optim/not-finite" : d <= tol ? "optim/agrees-with-plain<=1e-9" : d <= tolO ? "optim/agrees-within-coordinate-conditioning" : "optim/DIFFERS");
+        if (!fin || d > tolO) C.violation("extreme:optim-vs-plain:" + rtag, "evalCovMatrixOptim differs from evalCovMatrix by " + fmt(d) + " (plain path agrees with the closed form); " + txt, std::to_string(id));
+      }
+    }
+    C.outcome(std::string(bad ? "DIFFERS/" : "agrees/") + rtag + (idx[6] ? "/tiny-range" : ""));
+    bool obl = nd == 2 ? XROT2[idx[4]] != 0. : idx[4] != 0;
+    if (obl && nshort >= 3) C.nontrivial(id);
+    if (id % 601 == 7) C.sample("{\"id\":" + std::to_string(id) + ",\"case\":" + jstr(txt) + "}");
+  });
+}
+
 // =================================================================================================================
 // Part psd (driver of judgeMatrix above)
 VF_PART(psd)
